@@ -124,7 +124,7 @@ func VerifC16Triggers() {
 	// Known finding (see VerifC17Trigger): the watermark trigger's btree identifies two different
 	// group keys whose event times are the same instant in different time.Time representations, so
 	// one of the two groups is never polled and its result never reaches the output.
-	zzverif.Known("C17-watermark-trigger-time-identity", zzverif.And(mask&TrigWatermark != 0, mixed))
+	zzverif.Known("C16-watermark-trigger-time-identity", zzverif.And(mask&TrigWatermark != 0, mixed))
 
 	sink := &vx.Sink{}
 	trig := TriggerPrototype(mask, n, 0)
